@@ -421,6 +421,9 @@ func (vr *variableResolver) resolve(ctx *ExecutionContext) (*Value, error) {
 			if current.Kind() != reflect.Func {
 				return nil, fmt.Errorf("'%s' is not a function (it is %s)", vr.String(), current.Kind().String())
 			}
+			if current.IsNil() {
+				return nil, fmt.Errorf("'%s' is a nil function", vr.String())
+			}
 
 			// Check for correct function syntax and types
 			// func(*Value, ...) *Value
